@@ -34,7 +34,10 @@ def run_property(prop, root='/repo', tier='quick', replay_key=None, seed=0):
             print('%s regex engine cross-check: %d patterns, %d strings agree with re.fullmatch' % (prop, cc['patterns'], cc['strings']))
         # test the checker both ways before believing its verdict
         from .selftest import run_selftest
-        summary = run_selftest(prop, root)
+        counts = {}
+        for o in rep.obs:
+            counts[o.rule] = counts.get(o.rule, 0) + 1
+        summary = run_selftest(prop, root, reference_counts=counts)
         rep.stat('selftest', summary)
         print('%s self-test: %d/%d must-fire variants reported, %d/%d must-stay-silent variants silent%s'
               % (prop, summary.get('fired', 0), summary.get('must_fire', 0), summary.get('silent', 0),
